@@ -186,6 +186,11 @@ func Generate(r *rand.Rand, k Knobs) *Module {
 			p.Name = m.Pkgs[r.IntN(i)].Name
 			p.Path = fmt.Sprintf("d%d/%s", i, p.Name)
 		}
+		if i < m.Ext && r.IntN(2) == 0 {
+			// a dependency whose import path has an element that merely ENDS in "vendor": in vendor layouts the loader
+			// reports it as example.com/vendor/dep.example/govendor/pN, and un-vendoring must cut at the vendor ELEMENT
+			p.Path = "govendor/" + p.Name
+		}
 		if r.IntN(6) == 0 {
 			// the directory (last element of the import path) is not the package name
 			p.Path = fmt.Sprintf("x%d/dir-of-%s.v%d", i, p.Name, i)
